@@ -385,6 +385,36 @@ def h_answers(E, idx):
     return 'ok'
 
 
+def h_list_lengths(E, cls, form):
+    """cross-option rule: every alternative list answer has the same length - wherever the alternatives sit (a tuple of lists, a tuple-valued
+    expect inside a dictionary, delimited strings, both levels at once).  The lengths are symbolic integers."""
+    import mitxgraders as m
+    from mitxgraders.exceptions import ConfigError
+    n_entries = E.fork_int('entries', 1, 2)
+    n_alts = E.fork_int('alternatives_per_entry', 1, 2)
+    lens = [[E.fork_int('len_%d_%d' % (i, j), 1, 3) for j in range(n_alts)] for i in range(n_entries)]
+
+    def item(k):
+        vals = ['a', 'b', 'c'][:k]
+        return ', '.join(vals) if form == 'string' else list(vals)
+    entries = []
+    for i in range(n_entries):
+        alts = tuple(item(k) for k in lens[i])
+        if form == 'plain' and n_alts == 1:
+            entries.append(alts[0])
+        else:
+            entries.append({'expect': alts if n_alts > 1 else alts[0], 'grade_decimal': 1 if i == 0 else 0.5})
+    answers = tuple(entries) if n_entries > 1 else entries[0]
+    same = len({k for row in lens for k in row}) == 1
+    try:
+        m.SingleListGrader(answers=answers, subgrader=m.StringGrader())
+    except ConfigError:
+        E.check('alternative-lists-of-unequal-length-iff-ConfigError', not same)
+        return 'ConfigError'
+    E.check('alternative-lists-of-unequal-length-iff-ConfigError', same)
+    return 'built'
+
+
 KWDICT = [('MatrixGrader', dict(answers='[1,2]', entry_partial_credit=0.5), '[1,3]'), ('MatrixGrader', dict(answers='[1,2]', entry_partial_msg='some wrong'), '[1,3]'),
           ('MatrixGrader', dict(answers='[1,2]', entry_partial_credit='proportional', max_array_dim=2), '[1,3]'), ('FormulaGrader', dict(answers='x', variables=['x'], tolerance=0.1), 'x+0.05'),
           ('StringGrader', dict(answers='Cat', case_sensitive=False), 'cat'), ('NumericalGrader', dict(answers='10', tolerance='20%'), '11'),
@@ -478,6 +508,8 @@ def harnesses(tier):
     add(h_override, 'override', {}, 'presence flags')
     for cls in UNKNOWN:
         add(h_unknown_key, 'unknown_key', dict(cls=cls), 'presence flag')
+    for form in ('list', 'string', 'plain'):
+        add(h_list_lengths, 'list_lengths', dict(cls='SingleListGrader', form=form), '1-2 answer entries x 1-2 alternatives each, list lengths 1..3')
     for i in range(len(ANSWERS)):
         add(h_answers, 'answers', dict(i=i), '%s %r' % ANSWERS[i])
     for i in range(len(KWDICT)):
